@@ -31,7 +31,7 @@ class TrackProgram:
 
         kinds = ["zero", "one", "unmeasured", "reset", "remeasured", "random"]
         for _ in range(r.randrange(2, 6)):
-            place = r.choice(["main", "block", "loop", "func", "reg", "field", "multi"])
+            place = r.choice(["main", "block", "loop", "func", "reg", "field", "multi", "method", "smethod", "ctor", "ret"])
             kind = r.choice(kinds)
             if place == "main":
                 q = name("a")
@@ -77,6 +77,36 @@ class TrackProgram:
                 for _ in range(cnt):
                     body += ["{ %s o = new %s(); %s %s }" % (c, c, " ".join(st), "destroy o;" if how == "destroy" else "")]
                 self.expected["%s.%s" % (c, fq)] = {"exits": cnt, "outcome": out}
+            elif place in ("method", "smethod"):
+                # a tracked local directly in a method body (instance or static), the method called m times
+                q, c, m = name("t"), name("M"), r.randrange(1, 4)
+                st, out = prep(q, kind)
+                if place == "method":
+                    classes.append("class %s { public constructor() -> %s = default; public function go() -> void { @tracked qubit %s; %s } }"
+                                   % (c, c, q, " ".join(st)))
+                    body += ["%s o%s = new %s();" % (c, q, c)] + ["o%s.go();" % q] * m
+                else:
+                    classes.append("static class %s { public static function go() -> void { @tracked qubit %s; %s } }" % (c, q, " ".join(st)))
+                    body += ["%s.go();" % c] * m
+                self.expected["qubit " + q] = {"exits": m, "outcome": out}
+            elif place == "ctor":
+                q, c, m = name("k"), name("K"), r.randrange(1, 4)
+                st, out = prep(q, kind)
+                classes.append("class %s { public int v = 0; public constructor() -> %s { @tracked qubit %s; %s this.v = 1; return this; } }"
+                               % (c, c, q, " ".join(st)))
+                for j in range(m):
+                    body += ["%s o%s_%d = new %s();" % (c, q, j, c)]
+                self.expected["qubit " + q] = {"exits": m, "outcome": out}
+            elif place == "ret":
+                # leaves through a return inside a while inside an if: the function scope and both inner scopes end at once
+                q, q2, f, m = name("e"), name("e"), name("fr"), r.randrange(1, 4)
+                st, out = prep(q, kind)
+                st2, out2 = prep(q2, r.choice(kinds))
+                fns.append("function %s(int n) -> int { @tracked qubit %s; %s if (n > 0) { int i = 0; while (i < 3) { @tracked qubit %s; %s "
+                           "if (i == 1) { return i; } i = i + 1; } } return 0; }" % (f, q, " ".join(st), q2, " ".join(st2)))
+                body += ["%s(1);" % f] * m
+                self.expected["qubit " + q] = {"exits": m, "outcome": out}
+                self.expected["qubit " + q2] = {"exits": 2 * m, "outcome": out2}
             else:
                 q1, q2 = name("m"), name("m")
                 s1, o1 = prep(q1, kind)
